@@ -191,8 +191,10 @@ impl<'a, R: BufRead> LogCat2DltMsgIterator<'a, R> {
 fn parse_time_str(timestamp: &str) -> u64 {
     let dot_idx = timestamp.find('.').unwrap_or(timestamp.len());
 
+    // seconds are limited to u32 (as in the DLT storage header). Bigger values are treated as parsing error
+    // (and cannot overflow the us calculations)
     let timestamp_secs_us: u64 =
-        timestamp[0..dot_idx].parse::<u64>().unwrap_or_default() * US_PER_SEC;
+        timestamp[0..dot_idx].parse::<u32>().unwrap_or_default() as u64 * US_PER_SEC;
 
     let timestamp_fraction_us = if dot_idx < timestamp.len() {
         let timestamp_fraction_str = &timestamp[dot_idx + 1..];
